@@ -228,6 +228,7 @@ void encres_free(encres_t *r){ pktlist_free(&r->pk); }
 
 /* ================= mux / scan ================= */
 static void emit_page(buf_t *out, ogg_page *og){ buf_add(out,og->header,og->header_len); buf_add(out,og->body,og->body_len); }
+__thread int vh_mux_header_style=0;
 void mux_stream(const pktlist_t *pk, int serial, int policy, int fill, uint64_t seed, buf_t *out){ mux_stream_off(pk,serial,policy,fill,seed,0,out); }
 void mux_stream_off(const pktlist_t *pk, int serial, int policy, int fill, uint64_t seed, long goffset, buf_t *out){
   ogg_stream_state os; ogg_page og; ogg_packet op; rng_t r; rng_seed(&r,seed,0x30,(uint64_t)serial);
@@ -236,6 +237,10 @@ void mux_stream_off(const pktlist_t *pk, int serial, int policy, int fill, uint6
     pkt_to_ogg(&pk->v[i],&op);
     if(i>=3 && op.granulepos>=0) op.granulepos+=goffset;
     ogg_stream_packetin(&os,&op);
+    /* header paging (round 8): 0 = identification page + one page holding comment and setup (what every encoder front end writes); 1 = one header packet per page;
+       2 = comment and setup spread over several small continued pages.  All three are legal: only the identification header has a page of its own by rule. */
+    if(i==1 && vh_mux_header_style==1){ while(ogg_stream_flush(&os,&og)) emit_page(out,&og); continue; }
+    if(i==2 && vh_mux_header_style==2){ while(ogg_stream_pageout_fill(&os,&og,700)) emit_page(out,&og); }
     if(i==0 || i==2){ while(ogg_stream_flush(&os,&og)) emit_page(out,&og); continue; }
     if(i<3) continue;
     int pol=policy;
